@@ -123,6 +123,7 @@ class Adapter(EnvAdapter):
     def __init__(self):
         self._sol = None
         self._deviated = False
+        self._cache = {}
 
     # ---- configurations -------------------------------------------------------------------
     def configs(self, tier):
@@ -193,7 +194,10 @@ class Adapter(EnvAdapter):
         """A solution extending `board` (cached while play stays consistent with it), or None."""
         filled = board >= 0
         if self._sol is None or not np.array_equal(self._sol[filled], board[filled]):
-            self._sol = _solve(board)
+            k = board.tobytes()
+            if k not in self._cache:
+                self._cache[k] = _solve(board)
+            self._sol = self._cache[k]
         return self._sol
 
     @staticmethod
@@ -235,7 +239,7 @@ class Adapter(EnvAdapter):
                 if len(idx):
                     self._deviated = True
                     return self._act(env, *idx[rng.integers(0, len(idx))])
-            sol = self._solution(board)
+            sol = None if self._deviated else self._solution(board)
             if sol is None:  # dead end ahead: keep following the mask
                 return super().choose("masked", env, state, obs, rng, i)
             r, c = empty[rng.integers(0, len(empty))]
